@@ -16,7 +16,7 @@ const maxInlineDepth = 10
 
 func isSpecHelper(f *types.Func) bool {
 	switch f.Name() {
-	case "old", "forallInt", "existsInt", "forallReal", "existsReal", "implies", "assert", "assume", "iff", "fresh", "memEq", "lemmaUse", "wfd", "bnd":
+	case "old", "forallInt", "existsInt", "forallReal", "existsReal", "implies", "assert", "assume", "iff", "fresh", "memEq", "lemmaUse", "wfd", "bnd", "sameSlice":
 		return f.Pkg() != nil && strings.Contains(f.Pkg().Path(), "tdewolff/canvas")
 	}
 	return false
@@ -1147,6 +1147,8 @@ func (x *Exec) callSpecHelper(s *State, fn *types.Func, call *ast.CallExpr) []*T
 			return []*Term{Forall([]*Term{bv}, Implies(side, b))}
 		}
 		return []*Term{Exists([]*Term{bv}, And(side, b))}
+	case "sameSlice":
+		return []*Term{Eq(x.eval(s, call.Args[0]), x.eval(s, call.Args[1]))}
 	case "wfd":
 		return []*Term{x.specWfd(s, call)}
 	case "bnd":
